@@ -313,7 +313,7 @@ Proof.
           - replace (a1 - 1) with d by lia. rewrite Href. reflexivity.
           - destruct (N.ltb_spec a2 c); [lia|]. destruct (N.ltb_spec c a1); [|lia]. destruct (N.ltb_spec a2 d); [lia|].
             cbn [app]. rewrite Href. reflexivity. }
-        assert (Hlenres : (length ((c, (a1 - 1)%N) :: skipn m t') <= S (length t))%nat) by (cbn [length]; rewrite skipn_length; lia).
+        assert (Hlenres : (length (@cons ival (c, (a1 - 1)%N) (skipn m t')) <= S (length t))%nat) by (cbn [length]; rewrite skipn_length; lia).
         destruct Hxy as [(-> & -> & [-> | ->])|(Hm0 & -> & ->)].
         -- rewrite Hmin1. replace (N.min (k + 1) usize_max) with (k + 1) by lia. replace (N.max 0 0) with 0 by lia.
            rewrite apply_rm_none by lia. rewrite Hres. cbn [skipn]. split; [reflexivity|]. split; [left; reflexivity|]. cbn [length skipn] in *. lia.
@@ -326,11 +326,12 @@ Proof.
            split; [reflexivity|]. split; [|cbn [length] in *; lia].
            rewrite Hk1. apply (idx_ok_at p _ _ a2 [(c, a1 - 1)]); auto. cbn; lia. intros ? [<-|[]]. cbn [snd]. lia.
       * cbn [ref_rem]. destruct (N.ltb_spec d a1); [|lia].
-        specialize (IH (k + 1) (p ++ [(c, d)]) a1 a2).
+        specialize (IH (k + 1) (p ++ @cons ival (c, d) nil) a1 a2).
         rewrite app_length in IH. cbn [length] in IH. specialize (IH ltac:(lia) Hwft Ha Hae ltac:(lia)).
         destruct (rscan emax t (k + 1) (a1, a2) usize_max 0 cp) as [t' r]. cbn [fst snd] in *.
         rewrite <- app_assoc in IH. cbn [app] in IH.
-        destruct (apply_rm (p ++ (c, d) :: t') r cp) as [[res idx]|].
+        match goal with |- match ?X with _ => _ end => match type of IH with match ?Y with _ => _ end => change X with Y end end.
+        match type of IH with match ?Y with _ => _ end => destruct Y as [[res idx]|] end.
         -- destruct IH as (Hres & Hidx & Hcp). rewrite <- app_assoc in Hres. cbn [app] in Hres.
            split; [exact Hres|]. split; [|cbn [length]; intros; apply Hcp; lia].
            destruct Hidx as [->|(r0 & Hr0 & Hr1)]; [left; reflexivity|]. right. exists ((c, d) :: r0).
